@@ -21,7 +21,9 @@ def plan(tier):
                 qs.append(ResQuery('live_%s_first%d' % ('_'.join(progs), t0), progs, cbmc_defs=['VF_LIVENESS=1'], K=K, prefix=[t0], timeout=1500 if tier == 'quick' else 3000,
                                    desc={'threads': list(progs), 'first_scheduled_thread': t0, 'symbolic': 'the remaining %d schedule choices' % (K - 1), 'spurious_wakeups': 'off'}))
     # (b2) contention, fully idle, contention again on the same Resource (ticket bookkeeping across idle periods)
-    qs.append(ResQuery('reuse_WWW_WW', ('WWW', 'WW'), cbmc_defs=['VF_LIVENESS=1'], K=40, timeout=2400,
+    # thorough only: 700 s on its own (the quick tier has to stay well below 15 minutes)
+    if tier != 'quick':
+      qs.append(ResQuery('reuse_WWW_WW', ('WWW', 'WW'), cbmc_defs=['VF_LIVENESS=1'], K=40, timeout=2400,
                        desc={'threads': ['WWW', 'WW'], 'symbolic': 'the schedule (40 thread choices)', 'note': 'covers histories in which the Resource becomes idle between two contended periods'}))
     # (c) a request arriving between the admission of a queued batch and the resumption of its threads: one thread issues a second request
     if tier == 'quick':
